@@ -40,11 +40,13 @@ var slowReq atomic.Bool
 
 // InstallSlowReq installs the yield-point callback used by SlowReq cases.
 func InstallSlowReq() {
-	lib.SetVerifHook(func(point string, subject any) {
+	f := func(point string, subject any) {
 		if point == "req.wait" && slowReq.Load() {
 			time.Sleep(2 * time.Millisecond)
 		}
-	})
+	}
+	extraHook.Store(&f)
+	lib.SetVerifHook(netHook)
 }
 
 type Note struct {
